@@ -695,7 +695,10 @@ def _returns_at_loop_level(loop) -> bool:
     def ok(stmts) -> bool:
         for st in stmts:
             if isinstance(st, (ast.For, ast.While)):
-                if any(isinstance(n, ast.Return) for n in ast.walk(st)):
+                # the `else` clause of a nested loop is at this level: a `break` there leaves the outer loop
+                if any(isinstance(n, ast.Return) for b_ in st.body for n in ast.walk(b_)):
+                    return False
+                if st.orelse and not ok(st.orelse):
                     return False
                 continue
             if isinstance(st, (ast.FunctionDef, ast.AsyncFunctionDef, ast.ClassDef)):
@@ -721,6 +724,8 @@ def _returns_to_breaks(stmts: list, ret) -> None:
             stmts[i:i + 1] = new
             i += len(new)
             continue
+        if isinstance(st, (ast.For, ast.While)) and st.orelse:
+            _returns_to_breaks(st.orelse, ret)
         if not isinstance(st, (ast.For, ast.While, ast.FunctionDef, ast.AsyncFunctionDef, ast.ClassDef)):
             for fld in ("body", "orelse", "finalbody"):
                 b = getattr(st, fld, None)
@@ -1164,6 +1169,74 @@ def _thread_flags(body: list[ast.stmt]) -> bool:
         for h in getattr(st, "handlers", []) or []:
             changed |= _thread_flags(h.body)
     return changed
+
+
+def _thread_loop_exits(fn: ast.AST) -> int:
+    """`while True: ... V = None; break ... V = (a, b); break` followed by `if V is None: <leave>`: every exit of the loop sets V
+    right before it leaves, so the test after the loop is decided at each exit. The None exits take the `if` body (which
+    leaves the function), the others keep their assignment, and the test disappears. (What an inlined helper that returns
+    `None | (a, b)` and its caller's `if r is None: return ...` look like together.)"""
+    count = 0
+
+    def exits(stmts, out) -> bool:
+        """collect (block, index) of every `break` that leaves the loop; False if one is not preceded by an assignment"""
+        for i, st in enumerate(stmts):
+            if isinstance(st, ast.Break):
+                out.append((stmts, i))
+            elif isinstance(st, (ast.For, ast.While)):
+                if st.orelse and not exits(st.orelse, out):
+                    return False
+            elif isinstance(st, (ast.FunctionDef, ast.AsyncFunctionDef, ast.ClassDef)):
+                continue
+            else:
+                for fld in ("body", "orelse", "finalbody"):
+                    b = getattr(st, fld, None)
+                    if isinstance(b, list) and b and isinstance(b[0], ast.stmt) and not exits(b, out):
+                        return False
+                if isinstance(st, ast.Try):
+                    for h in st.handlers:
+                        if not exits(h.body, out):
+                            return False
+        return True
+
+    for parent in ast.walk(fn):
+        for fld in ("body", "orelse", "finalbody"):
+            blk = getattr(parent, fld, None)
+            if not isinstance(blk, list):
+                continue
+            i = 0
+            while i + 1 < len(blk):
+                w, t = blk[i], blk[i + 1]
+                i += 1
+                if not (isinstance(w, ast.While) and isinstance(w.test, ast.Constant) and w.test.value is True and not w.orelse
+                        and isinstance(t, ast.If) and not t.orelse and t.body and isinstance(t.body[-1], (ast.Return, ast.Raise))
+                        and isinstance(t.test, ast.Compare) and len(t.test.ops) == 1 and isinstance(t.test.ops[0], ast.Is)
+                        and isinstance(t.test.left, ast.Name) and isinstance(t.test.comparators[0], ast.Constant)
+                        and t.test.comparators[0].value is None):
+                    continue
+                V = t.test.left.id
+                if any(isinstance(y, (ast.Return, ast.Continue)) and False for y in ast.walk(w)):
+                    continue
+                sites = []
+                if not exits(w.body, sites) or not sites:
+                    continue
+                ok = True
+                for b_, k in sites:
+                    a = b_[k - 1] if k > 0 else None
+                    if not (isinstance(a, ast.Assign) and len(a.targets) == 1 and isinstance(a.targets[0], ast.Name) and a.targets[0].id == V
+                            and ((isinstance(a.value, ast.Constant) and a.value.value is None) or isinstance(a.value, (ast.Tuple, ast.List, ast.Dict)))):
+                        ok = False
+                if not ok or any(isinstance(y, ast.Name) and y.id == V for y in ast.walk(ast.Module(t.body, []))):
+                    continue
+                for b_, k in sorted(sites, key=lambda x: -x[1]):
+                    a = b_[k - 1]
+                    if isinstance(a.value, ast.Constant):
+                        b_[k - 1:k + 1] = copy.deepcopy(t.body)
+                del blk[i]
+                count += 1
+    if count:
+        ast.fix_missing_locations(fn)
+    return count
 
 
 def _lower_classifying_setcomps(fn: ast.AST) -> None:
@@ -2123,6 +2196,7 @@ def apply(repo) -> dict:
     for f in list(repo.functions.values()):
         if any(k.split(" -> ")[1].split(" [")[0] == f.key for k in report["inlined"]):
             _fold_after_inlining(f.node)
+            _thread_loop_exits(f.node)
             _project_tuples(f.node)
             _split_tuple_assigns(f.node)
             _coalesce_inliner_copies(f.node)
